@@ -135,7 +135,7 @@ def item(child):
         st.tuples(st.just('pkgmac'), st.sampled_from(PKG_MACROS), child),
         st.tuples(st.just('pkgenv'), st.sampled_from(PKG_ENVS), child),
         st.tuples(st.just('builtin'), st.sampled_from(BUILTIN)),
-        st.tuples(st.just('ctx'), st.sampled_from(['foot', 'head', 'ltadd', 'framebox', 'group', 'itemlab', 'hspace', 'phantom', 'alter2']), child),
+        st.tuples(st.just('ctx'), st.sampled_from(['foot', 'head', 'ltadd', 'framebox', 'group', 'itemlab', 'hspace', 'phantom', 'alter2', 'mathfoot', 'dmathfoot']), child),
         st.tuples(st.just('hidden'), st.sampled_from(['imath', 'dmath', 'equation', 'comment', 'verb', 'ltskip', 'alter1', 'skipregion', 'comment-after-linebreak', 'comment-glued', 'verbatim', 'skipregion-after-comment', 'skipregion-comment-before-end']),
                   st.one_of(zz, st.sampled_from([t[1] for t in PKG_MACROS]))),
         st.tuples(st.just('define'), zz, st.sampled_from(['newcommand0', 'newcommand1', 'def', 'body'])),
@@ -240,7 +240,9 @@ def rend(w, fl):
             pre, post = {'foot': ('\\footnote{', '}'), 'head': ('\\section{', '}'), 'ltadd': ('\\LTadd{', '}'),
                          'framebox': ('\\framebox{', '}'), 'group': ('{', '}'),
                          'itemlab': ('\\begin{itemize}\\item[', '] x \\end{itemize}'),
-                         'hspace': ('\\hspace{', '}'), 'phantom': ('\\phantom{', '}'), 'alter2': ('\\LTalter{x}{', '}')}[c]
+                         'hspace': ('\\hspace{', '}'), 'phantom': ('\\phantom{', '}'), 'alter2': ('\\LTalter{x}{', '}'),
+                         # text of a footnote attached to a formula is text (seeded change C19-G)
+                         'mathfoot': ('$x\\footnote{', '}$'), 'dmathfoot': ('\\[ x = y \\footnote{', '} \\]')}[c]
             w.emit(pre)
             sub = it[2]
             if c in ('itemlab',):
